@@ -225,3 +225,125 @@ package output
 //@     invariant [b @b] (forall j int :: 0 <= j && j < $i1 ==> decParamsIn(decorators[j], dom(existing)))
 //@                    && (forall q int :: 0 <= q && q < $i2 ==> namesIn(d.Args[q].DependsOnParams, dom(existing)))
 //@                    && (forall m int :: 0 <= m && m < $i ==> a.DependsOnParams[m] in dom(existing)) ==> len(errs) == 0
+
+// ---- C07 / C05: the dependency graph handed to the library has exactly the edges of the dependency relation.
+// (Node, edges, reach, acyclic: assumed model of the library graph, /verif/contracts/assumed/graph.spec.)
+
+// What the first k entries of AllArgs() reference (services, parameters, tags), as sets of names, by the obvious
+// recursion over k (definitional axioms). AllArgs() is proved sound and complete for arguments, calls and fields (C06).
+//@ spec svcRefS(s Service, k int) strset
+//@ axiom [svcRefS_0] forall s Service :: svcRefS(s, 0) == emptyset()
+//@ axiom [svcRefS_step] forall s Service, k int :: 0 <= k && k < len(s.AllArgs()) ==> svcRefS(s, k + 1) == union(svcRefS(s, k), elems(s.AllArgs()[k].DependsOnServices))
+//@ spec svcRefP(s Service, k int) strset
+//@ axiom [svcRefP_0] forall s Service :: svcRefP(s, 0) == emptyset()
+//@ axiom [svcRefP_step] forall s Service, k int :: 0 <= k && k < len(s.AllArgs()) ==> svcRefP(s, k + 1) == union(svcRefP(s, k), elems(s.AllArgs()[k].DependsOnParams))
+//@ spec svcRefT(s Service, k int) strset
+//@ axiom [svcRefT_0] forall s Service :: svcRefT(s, 0) == emptyset()
+//@ axiom [svcRefT_step] forall s Service, k int :: 0 <= k && k < len(s.AllArgs()) ==> svcRefT(s, k + 1) == union(svcRefT(s, k), elems(s.AllArgs()[k].DependsOnTags))
+// the same for the first k arguments of a decorator
+//@ spec decRefS(d Decorator, k int) strset
+//@ axiom [decRefS_0] forall d Decorator :: decRefS(d, 0) == emptyset()
+//@ axiom [decRefS_step] forall d Decorator, k int :: 0 <= k && k < len(d.Args) ==> decRefS(d, k + 1) == union(decRefS(d, k), elems(d.Args[k].DependsOnServices))
+//@ spec decRefP(d Decorator, k int) strset
+//@ axiom [decRefP_0] forall d Decorator :: decRefP(d, 0) == emptyset()
+//@ axiom [decRefP_step] forall d Decorator, k int :: 0 <= k && k < len(d.Args) ==> decRefP(d, k + 1) == union(decRefP(d, k), elems(d.Args[k].DependsOnParams))
+//@ spec decRefT(d Decorator, k int) strset
+//@ axiom [decRefT_0] forall d Decorator :: decRefT(d, 0) == emptyset()
+//@ axiom [decRefT_step] forall d Decorator, k int :: 0 <= k && k < len(d.Args) ==> decRefT(d, k + 1) == union(decRefT(d, k), elems(d.Args[k].DependsOnTags))
+//@ spec hasTag(s Service, t string) bool = exists m int :: 0 <= m && m < len(s.Tags) && s.Tags[m].Name == t
+
+// edges that leave or enter the node of service s: to the decorators of each of its tags, from each of its tags, and to
+// every service, tag and parameter its arguments, calls and fields reference
+//@ spec svcEdge(s Service, a Node, b Node) bool =
+//@      (a == svc(s.Name) && is_dectag(b) && hasTag(s, b.dn))
+//@   || (is_tag(a) && hasTag(s, a.tn) && b == svc(s.Name))
+//@   || (a == svc(s.Name) && is_svc(b) && (b.sn in svcRefS(s, len(s.AllArgs()))))
+//@   || (a == svc(s.Name) && is_tag(b) && (b.tn in svcRefT(s, len(s.AllArgs()))))
+//@   || (a == svc(s.Name) && is_prm(b) && (b.pn in svcRefP(s, len(s.AllArgs()))))
+// edges of decorator number i: from its tag's decoration node, and to everything its arguments reference
+//@ spec decEdge(d Decorator, i int, a Node, b Node) bool =
+//@      (a == dectag(d.Tag) && b == dec(i))
+//@   || (a == dec(i) && is_svc(b) && (b.sn in decRefS(d, len(d.Args))))
+//@   || (a == dec(i) && is_tag(b) && (b.tn in decRefT(d, len(d.Args))))
+//@   || (a == dec(i) && is_prm(b) && (b.pn in decRefP(d, len(d.Args))))
+// parameter -> referenced parameter, for the first k references of p
+//@ spec paramEdge(p Param, a Node, b Node, k int) bool = a == prm(p.Name) && is_prm(b) && (exists m int :: 0 <= m && m < k && p.DependsOn[m] == b.pn)
+
+// the dependency relation of the first ns services, nd decorators and np parameters
+//@ spec depRel(o Output, a Node, b Node, ns int, nd int, np int) bool =
+//@      (exists j int :: 0 <= j && j < ns && svcEdge(o.Services[j], a, b))
+//@   || (exists j int :: 0 <= j && j < nd && decEdge(o.Decorators[j], j, a, b))
+//@   || (exists j int :: 0 <= j && j < np && paramEdge(o.Params[j], a, b, len(o.Params[j].DependsOn)))
+
+//@ func (Output).BuildDependencyGraph
+//@   property C07 C05 C12
+//@   modifies edges
+//@   ensures [nonnil] result != nil
+//@   ensures [every_dependency_is_an_edge @complete] forall a Node, b Node :: depRel(o, a, b, len(o.Services), len(o.Decorators), len(o.Params)) ==> edge(edges, a, b)
+//@   ensures [every_edge_is_a_dependency @sound] forall a Node, b Node :: edge(edges, a, b) ==> depRel(o, a, b, len(o.Services), len(o.Decorators), len(o.Params))
+//@   loop 1
+//@     invariant [c @complete] forall a Node, b Node :: depRel(o, a, b, $i, 0, 0) ==> edge(edges, a, b)
+//@     invariant [s @sound] forall a Node, b Node :: edge(edges, a, b) ==> depRel(o, a, b, $i, 0, 0)
+//@   loop 2
+//@     invariant [len] len(tags) == len(s.Tags)
+//@     invariant [done] forall m int :: 0 <= m && m < $i ==> tags[m] == s.Tags[m].Name
+//@   loop 3
+//@     invariant [svc] elems(dependantServices) == svcRefS(s, $i)
+//@     invariant [tag] elems(dependantTags) == svcRefT(s, $i)
+//@     invariant [prm] elems(dependantParams) == svcRefP(s, $i)
+//@   loop 4
+//@     invariant [c @complete] forall a Node, b Node :: depRel(o, a, b, len(o.Services), $i, 0) ==> edge(edges, a, b)
+//@     invariant [s @sound] forall a Node, b Node :: edge(edges, a, b) ==> depRel(o, a, b, len(o.Services), $i, 0)
+//@   loop 5
+//@     invariant [svc] elems(dependantServices) == decRefS(d, $i)
+//@     invariant [tag] elems(dependantTags) == decRefT(d, $i)
+//@     invariant [prm] elems(dependantParams) == decRefP(d, $i)
+//@   loop 6
+//@     invariant [c @complete] forall a Node, b Node :: depRel(o, a, b, len(o.Services), len(o.Decorators), $i) ==> edge(edges, a, b)
+//@     invariant [s @sound] forall a Node, b Node :: edge(edges, a, b) ==> depRel(o, a, b, len(o.Services), len(o.Decorators), $i)
+//@   loop 7
+//@     invariant [c @complete] forall a Node, b Node :: (depRel(o, a, b, len(o.Services), len(o.Decorators), $i6) || paramEdge(p, a, b, $i)) ==> edge(edges, a, b)
+//@     invariant [s @sound] forall a Node, b Node :: edge(edges, a, b) ==> (depRel(o, a, b, len(o.Services), len(o.Decorators), $i6) || paramEdge(p, a, b, $i))
+
+// the library graph as seen through the interface BuildDependencyGraph returns (A11)
+//@ interface dependencyGraph.Deps(serviceID string) []graph.Dependency
+//@   ensures [sound] forall k int :: 0 <= k && k < len(result) ==> reach(edges, svc(serviceID), nodeOf(result[k]))
+//@   ensures [complete] forall b Node :: reach(edges, svc(serviceID), b) ==> (exists k int :: 0 <= k && k < len(result) && nodeOf(result[k]) == b)
+//@ interface dependencyGraph.CircularDeps() [][]graph.Dependency
+//@   ensures [empty_iff_acyclic] (len(result) == 0) <==> acyclic(edges)
+
+// C07: accepted iff the dependency relation (exactly depRel, by BuildDependencyGraph's contract) has no cycle
+//@ func ValidateCircularDeps
+//@   property C07 C12
+//@   modifies edges
+//@   ensures [graph_is_the_dependency_relation] forall a Node, b Node :: edge(edges, a, b) <==> depRel(o, a, b, len(o.Services), len(o.Decorators), len(o.Params))
+//@   ensures [accept_iff_acyclic] (result == nil) <==> acyclic(edges)
+
+// C05: a configuration is rejected for scope reasons exactly when some service declared shared reaches, through the
+// dependency relation, a service declared contextual.
+//@ spec sharedReachesContextual(o Output, e edgeset, j int, k int) bool =
+//@   o.Services[j].Scope == ScopeShared && o.Services[k].Scope == ScopeContextual && reach(e, svc(o.Services[j].Name), svc(o.Services[k].Name))
+
+//@ func ValidateServicesScopes
+//@   property C05 C16 C12
+//@   requires [service_names_distinct] forall a int, b int :: 0 <= a && a < b && b < len(o.Services) ==> o.Services[a].Name != o.Services[b].Name
+//@   modifies edges
+//@   ensures [graph_is_the_dependency_relation] forall a Node, b Node :: edge(edges, a, b) <==> depRel(o, a, b, len(o.Services), len(o.Decorators), len(o.Params))
+//@   ensures [accept_sound @a] result == nil ==> (forall j int, k int :: 0 <= j && j < len(o.Services) && 0 <= k && k < len(o.Services) ==> !sharedReachesContextual(o, edges, j, k))
+//@   ensures [accept_complete @b] (forall j int, k int :: 0 <= j && j < len(o.Services) && 0 <= k && k < len(o.Services) ==> !sharedReachesContextual(o, edges, j, k)) ==> result == nil
+//@   loop 1
+//@     invariant [nonnil] services != nil
+//@     invariant [dom] forall n string :: (n in services) <==> (exists j int :: 0 <= j && j < $i && o.Services[j].Name == n)
+//@     invariant [val] forall j int :: 0 <= j && j < $i ==> (o.Services[j].Name in services) && services[o.Services[j].Name] == o.Services[j]
+//@   loop 2
+//@     invariant [nonnil_errs] forall q int :: 0 <= q && q < len(errs) ==> errs[q] != nil
+//@     invariant [a @a] len(errs) == 0 ==> (forall j int, k int :: 0 <= j && j < len(o.Services) && 0 <= k && k < len(o.Services) && (o.Services[j].Name in visited) ==> !sharedReachesContextual(o, edges, j, k))
+//@     invariant [b @b] (forall j int, k int :: 0 <= j && j < len(o.Services) && 0 <= k && k < len(o.Services) && (o.Services[j].Name in visited) ==> !sharedReachesContextual(o, edges, j, k)) ==> len(errs) == 0
+
+//@ closure ValidateServicesScopes$1
+//@   loop 1
+//@     invariant [nonnil_errs] forall q int :: 0 <= q && q < len(errs) ==> errs[q] != nil
+//@     invariant [a @a] len(errs) == 0 ==> (forall j int, k int :: 0 <= j && j < len(o.Services) && 0 <= k && k < len(o.Services) && (o.Services[j].Name in visited) ==> !sharedReachesContextual(o, edges, j, k))
+//@        && (forall q int :: 0 <= q && q < $i && is_svc(nodeOf(deps[q])) ==> services[deps[q].Resource].Scope != ScopeContextual)
+//@     invariant [b @b] (forall j int, k int :: 0 <= j && j < len(o.Services) && 0 <= k && k < len(o.Services) && (o.Services[j].Name in visited) ==> !sharedReachesContextual(o, edges, j, k))
+//@        && (forall q int :: 0 <= q && q < $i && is_svc(nodeOf(deps[q])) ==> services[deps[q].Resource].Scope != ScopeContextual) ==> len(errs) == 0
